@@ -43,6 +43,9 @@ func (f *Frame) call(ins ssa.Instruction, c *ssa.CallCommon) *SVal {
 			return m(f, args, rt, pos)
 		}
 		if ct := g.P.Specs.Contracts[key]; ct != nil {
+			if ct.Dispatch {
+				return f.dispatchCall(c, args, rt, pos, key)
+			}
 			return f.callContract(ct, nil, c.Signature(), args, rt, pos, key)
 		}
 		return f.havocCall(nil, key, c, args, rt, pos)
@@ -859,5 +862,67 @@ func (f *Frame) appendBuiltin(s, t *SVal, rt types.Type, pos token.Pos) *SVal {
 	re1 := g.arrCopy(es, g.constArray(arrSort(SBV64, es), es, g.zeroScalar(et)), bv64(0), sarr, s.Sub[1].Term, s.Sub[2].Term)
 	re2 := g.arrCopy(es, re1, s.Sub[2].Term, tarr, toff, n)
 	g.heapSet(f.curState, elemFam(et), srt, sIte(fits, sStore(h, s.Sub[0].Term, inPlace), sStore(h, nb, re2)))
+	return res
+}
+
+// dispatchCall resolves an interface method call by a case split over the dynamic type: one case per
+// module type implementing the interface (its method is called by contract, or inlined), and a last case
+// for every other dynamic type, where the call is havocked under the default contract.
+func (f *Frame) dispatchCall(c *ssa.CallCommon, args []*SVal, rt types.Type, pos token.Pos, key string) *SVal {
+	g := f.g
+	recv := args[0]
+	iface, ok := c.Value.Type().Underlying().(*types.Interface)
+	if !ok {
+		panic(unsupported("dispatch on non-interface " + c.Value.Type().String()))
+	}
+	tagT := recv.Sub[0].Term
+	f.oblige("nilderef", sNot(sEq(tagT, bvLit(big.NewInt(0), 32))), pos, "method call on nil interface value")
+	baseReach, baseState := f.curReach, f.curState
+	var conds []string
+	var sts []*State
+	var vals []*SVal
+	others := []string{baseReach}
+	for _, im := range g.P.implementors(iface, c.Method.Name()) {
+		tagc := sEq(tagT, bvLit(big.NewInt(int64(g.W.typeTag(im.T))), 32))
+		f.curReach = g.define("r.disp", SBool, sAnd(baseReach, tagc))
+		f.curState = g.clone(baseState)
+		fn := im.Fn
+		cv := f.unbox(recv, im.T)
+		// a synthetic wrapper (*T).M around a value-receiver method T.M: call the declared method
+		if fn.Synthetic != "" {
+			if pt, isPtr := im.T.(*types.Pointer); isPtr {
+				if sel := g.P.prog.MethodSets.MethodSet(pt.Elem()).Lookup(c.Method.Pkg(), c.Method.Name()); sel != nil {
+					if vf := g.P.prog.MethodValue(sel); vf != nil && vf.Synthetic == "" {
+						f.oblige("nilderef", sNot(sEq(cv.Term, bv64(0))), pos, "nil pointer in interface, value-receiver method")
+						cv = g.load(f.curState, cv, pt.Elem())
+						fn = vf
+					}
+				}
+			}
+		}
+		g.note("dispatch %s: %s", key, fn.String())
+		r := f.inlineOrContract(fn, append([]*SVal{cv}, args[1:]...), nil, rt, pos)
+		conds = append(conds, f.curReach)
+		sts = append(sts, f.curState)
+		vals = append(vals, r)
+		others = append(others, sNot(tagc))
+	}
+	f.curReach = g.define("r.disp.other", SBool, sAnd(others...))
+	f.curState = g.clone(baseState)
+	r := f.havocCall(nil, key, c, args, rt, pos)
+	conds = append(conds, f.curReach)
+	sts = append(sts, f.curState)
+	vals = append(vals, r)
+	f.curReach = g.define("r.disp.join", SBool, sOr(conds...))
+	f.curState = g.join(sts, conds)
+	res := vals[len(vals)-1]
+	if res == nil {
+		return nil
+	}
+	for i := len(vals) - 2; i >= 0; i-- {
+		if vals[i] != nil {
+			res = g.iteVal(conds[i], vals[i], res)
+		}
+	}
 	return res
 }
